@@ -15,7 +15,7 @@ from fractions import Fraction
 from genlm.grammar import semiring as S
 from genlm.grammar.semiring import Semiring
 
-FLOAT_RTOL = 1e-8
+FLOAT_RTOL = 1e-7  # see DESIGN 11: the library discards increments below 1e-12 one by one; they add up to 1e-9..1e-8 relative on large normal-form grammars
 # absolute slack: the library's own fixed points (null weights, totals) stop when an update is
 # below 1e-12, so a value may carry an absolute error of a few 1e-12 whatever its size
 FLOAT_ATOL = 1e-10
